@@ -1,2 +1,72 @@
+/-
+Kernel-checked witnesses of the known findings of C02 (known_findings.json), on the toy FPU of Lemmas/FpToy.lean
+(an FPU that meets every contract of `FpuSpec`): the full selection statement `C02_select_Statement` is false.
+
+  C02-u64-to-f32-signed        (float)(unsigned long)2^63: the cell is `cvtsi2ssq %rax, %xmm0`, which reads 2^63 as −2^63;
+                               the result has its sign bit set, the C11 result has not.
+  C02-fp-to-u64-above-2p63     (unsigned long)x for the double x = 3·2^62: the cell is `cvttsd2siq %xmm0, %rax`, which
+                               returns the integer indefinite 0x8000000000000000 because 3·2^62 ≥ 2^63.
+  C02-literal-double-rounding  rounding to 64 significant bits (what `strtold` does) and then to 53 is not rounding to 53:
+                               2^64 + 2^11 + 1 → 2^64 + 2^11 → 2^64 (tie, to even), but directly → 2^64 + 2^12.
+-/
+import ChibiVerif.Props.C02
+
 namespace ChibiVerif.Findings.C02
+open ChibiVerif.Fp ChibiVerif.Asm ChibiVerif.X86 ChibiVerif.Spec.Fpu ChibiVerif.FpCodegen ChibiVerif.Spec.FpC11
+open ChibiVerif.Spec.IntSpec ChibiVerif.Props.C02
+
+/-- a machine state with `%rax = r`, `%xmm0 = x`, empty x87 stack, default control word -/
+def st0 (r x : BitVec 64) : FState :=
+  ⟨{ regs := fun _ => r, mem := fun _ => 0 }, x, 0, [], 0x37f#16⟩
+
+/-- **C02-u64-to-f32-signed** -/
+theorem C02_finding_u64_to_f32_signed : ¬ C02_select_Statement := by
+  intro h
+  obtain ⟨s', hrun, hhold, _⟩ := h Toy.toy (.int .u64) .f32 (st0 0x8000000000000000#64 0) (.int 9223372036854775808)
+    (.f32 (Toy.toy.ofInt32 9223372036854775808)) (Or.inr rfl)
+    (by simp [Holds, RInt, ITy.inRange, ITy.min, ITy.max, ITy.signed, ITy.bits, State.get, st0]) rfl
+  obtain ⟨s'', hrun', hx, _⟩ := eff_u64f32 Toy.toy (st0 0x8000000000000000#64 0)
+  have hs : s' = s'' := Option.some.inj (hrun.symm.trans hrun')
+  subst hs
+  simp only [Holds] at hhold
+  have h1 := Toy.toy.ofInt32_sign 9223372036854775808
+  have h2 := Toy.toy.ofInt32_sign (-9223372036854775808)
+  rw [← hhold, hx, Toy.toy.cvtsi2ss64_spec] at h1
+  have e : (State.get (st0 0x8000000000000000#64 0).x Reg.rax).toInt = -9223372036854775808 := by decide
+  rw [e, h2] at h1
+  exact absurd h1 (by decide)
+
+/-- the toy double 3·2^62: q = 3, shift 62 -/
+def x3p62 : BitVec 64 := BitVec.ofNat 64 (Toy.enc 57 false 3 62)
+
+/-- **C02-fp-to-u64-above-2p63** -/
+theorem C02_finding_fp_to_u64_above_2p63 : ¬ C02_select_Statement := by
+  intro h
+  have hval : Toy.toy.val64 x3p62 = .fin false 3 62 := by decide
+  obtain ⟨s', hrun, hhold, _⟩ := h Toy.toy .f64 (.int .u64) (st0 0 x3p62) (.f64 x3p62) (.int 13835058055282163712)
+    (Or.inl rfl) (by simp [Holds, st0])
+    (by simp only [ChibiVerif.Spec.FpC11.convert, hval, fpToInt]; decide)
+  obtain ⟨s'', hrun', hx, _⟩ := eff_f64u64 Toy.toy (st0 0 x3p62)
+  have hs : s' = s'' := Option.some.inj (hrun.symm.trans hrun')
+  subst hs
+  simp only [Holds, RInt] at hhold
+  have e : State.get s'.x Reg.rax = 0x8000000000000000#64 := by
+    rw [hx, Toy.toy.cvttsd2si64_spec]
+    show truncTo 64 (Toy.toy.val64 x3p62) = _
+    rw [hval]; decide
+  rw [e] at hhold
+  exact absurd hhold.2 (by decide)
+
+/-- **C02-literal-double-rounding** (the arithmetic core): round₅₃ ∘ round₆₄ ≠ round₅₃ -/
+theorem C02_finding_literal_double_rounding :
+    roundNat 53 (roundNat 64 18446744073709553665) ≠ roundNat 53 18446744073709553665 := by decide
+
+/-! ### repaired defects (fix: commits recorded in known_findings.json): the current table, checked -/
+
+/-- (short)ld / (unsigned short)ld / (unsigned)ld reload with the right width and extension, and (unsigned)ld stores 64 bits -/
+theorem C02_fixed_f80_cells :
+    (Gen.CastTable.f80i16.instrs.getLast? = some ⟨"movswl", [.m (-24) "%rsp", .r "%eax"]⟩) ∧
+    (Gen.CastTable.f80u16.instrs.getLast? = some ⟨"movzwl", [.m (-24) "%rsp", .r "%eax"]⟩) ∧
+    (Gen.CastTable.f80u32.instrs.contains ⟨"fistpq", [.m (-24) "%rsp"]⟩ = true) := by decide
+
 end ChibiVerif.Findings.C02
